@@ -296,7 +296,12 @@ PROPS["C20"] = dict(PROPS["C01"], lean=["Gengo.Props.C20"],
     level_text="Kernel-checked on the model of the predicates over universe objects: a type reported assignable consists of builtin "
                "scalars, defined types over them and structs of such at every depth (no pointer, map, slice, channel, function or interface "
                "object anywhere); IsPrimitive holds exactly for builtin objects and defined types over them; no named struct is reported "
-               "anonymous; from the regenerated tables, kind Builtin is given to predeclared scalars only and to every one of them. The "
+               "anonymous; from the regenerated tables, kind Builtin is given to predeclared scalars only and to every one of them. In the "
+               "universes the loaders build (full model, Lemmas/WalkObj.lean: an arbitrary per-object invariant threaded through walkType, "
+               "scans and both loaders once and for all) these kinds mean what they say about the Go program: an object of kind Builtin was "
+               "never filled from a node and is named after a Builtin entry of the table (a Go scalar), an object of kind Struct was filled "
+               "from a Go struct node with exactly its fields, an object of kind Alias from a defined type's node over the object of its "
+               "underlying type (assignable_means_scalars_and_structs). The "
                "predicate values of every object of the real universes are compared with the model, and an oracle compares them with "
                "go/types (containment of reference kinds, types.Comparable for v2).")
 
